@@ -2016,7 +2016,20 @@ def mutate_held(obj, edit):
                     edit["name"] not in obj:
                 return False
             # documented workflow: edit attributes of the Parameter in place
-            setattr(obj[edit["name"]], edit["attr"], edit["value"])
+            q = obj[edit["name"]]
+            # keep the value inside the bounds: lmfit clips lazily, and a
+            # deep copy of an out-of-bounds parameter is not equal to the
+            # original (a property of lmfit, not of nanite)
+            if edit["attr"] == "max" and not (q.min <= q.value
+                                              <= edit["value"]):
+                return False
+            if edit["attr"] == "min" and not (edit["value"] <= q.value
+                                              <= q.max):
+                return False
+            if edit["attr"] == "value" and not (q.min <= edit["value"]
+                                                <= q.max):
+                return False
+            setattr(q, edit["attr"], edit["value"])
         elif k == "list_append":
             if not isinstance(obj, list):
                 return False
